@@ -19,7 +19,7 @@ def Env.two : Env := {}
 
 theorem execN_default (v : Variant) (t : Tid) (st : Step) (r : List Step) (sh : Shared) (c : Cur) :
     execN Env.two v t st r sh c = exec v t st r sh c := by
-  cases st <;> simp [execN, execW1, execW2, exec, Env.two]
+  cases st <;> simp [execN, execW1, execW2, exec, Env.two] <;> split <;> rfl
 
 theorem stepN_default (v : Variant) (cfg : Cfg) (s : State) (t : Tid) :
     stepN Env.two v cfg s t = step v cfg s t := by
@@ -101,16 +101,19 @@ theorem stepN_cases (env : Env) (v : Variant) (cfg : Cfg) (s : State) (t : Tid) 
       · exact Or.inl ⟨c, _, r, hc, hr, stepN_w1 env v cfg s t c _ r hc hr⟩
       · exact Or.inr ⟨c, _, r, hc, hr, stepN_w2 env v cfg s t c _ r hc hr⟩
 
-/-- what a write step can do: fail, write nothing (1-chunk `sendall`), write a chunk and stay,
-    write a chunk and move on -/
+/-- what a write step can do: fail on a shut socket (`dead`), fail as told by the environment (`fail`; the
+    socket is not shut then), write nothing (1-chunk `sendall`), write a chunk and stay, write a chunk and move on -/
 inductive W1Out (env : Env) (t : Tid) (f : FrameSrc) (r : List Step) (sh : Shared) (c : Cur) : Shared × Cur → Prop
-  | fail : env.failAt t c.idx = some (sentOf sh.wire t c.idx) →
+  | dead : sh.sockShut = true →
       W1Out env t f r sh c (sh, { c with rest := toRelease r, err := some .transport })
-  | skip : env.failAt t c.idx ≠ some (sentOf sh.wire t c.idx) → env.more t c.idx = 0 →
+  | fail : sh.sockShut = false → env.failAt t c.idx = some (sentOf sh.wire t c.idx) →
+      W1Out env t f r sh c (sh, { c with rest := toRelease r, err := some .transport })
+  | skip : sh.sockShut = false → env.failAt t c.idx ≠ some (sentOf sh.wire t c.idx) → env.more t c.idx = 0 →
       W1Out env t f r sh c (sh, { c with rest := r })
-  | stay : env.failAt t c.idx ≠ some (sentOf sh.wire t c.idx) → sentOf sh.wire t c.idx + 1 < env.more t c.idx →
+  | stay : sh.sockShut = false → env.failAt t c.idx ≠ some (sentOf sh.wire t c.idx) →
+      sentOf sh.wire t c.idx + 1 < env.more t c.idx →
       W1Out env t f r sh c ({ sh with wire := sh.wire ++ [⟨t, c.idx, false, descOf f c⟩] }, { c with rest := .write1 f :: r })
-  | adv : env.failAt t c.idx ≠ some (sentOf sh.wire t c.idx) → env.more t c.idx ≠ 0 →
+  | adv : sh.sockShut = false → env.failAt t c.idx ≠ some (sentOf sh.wire t c.idx) → env.more t c.idx ≠ 0 →
       ¬ sentOf sh.wire t c.idx + 1 < env.more t c.idx →
       W1Out env t f r sh c ({ sh with wire := sh.wire ++ [⟨t, c.idx, false, descOf f c⟩] }, { c with rest := r })
 
@@ -118,27 +121,37 @@ theorem execW1_out (env : Env) (t : Tid) (f : FrameSrc) (r : List Step) (sh : Sh
     W1Out env t f r sh c (execW1 env t f r sh c) := by
   unfold execW1 failWrite
   split
-  · rename_i h; exact W1Out.fail h
-  · rename_i h
+  · rename_i hs; exact W1Out.dead hs
+  · rename_i hs
+    have hs : sh.sockShut = false := by simpa using hs
     split
-    · rename_i h0; exact W1Out.skip h h0
-    · rename_i h0
-      by_cases hk : sentOf sh.wire t c.idx + 1 < env.more t c.idx
-      · simp only [hk, if_true]; exact W1Out.stay h hk
-      · simp only [hk, if_false]; exact W1Out.adv h h0 hk
+    · rename_i h; exact W1Out.fail hs h
+    · rename_i h
+      split
+      · rename_i h0; exact W1Out.skip hs h h0
+      · rename_i h0
+        by_cases hk : sentOf sh.wire t c.idx + 1 < env.more t c.idx
+        · simp only [hk, if_true]; exact W1Out.stay hs h hk
+        · simp only [hk, if_false]; exact W1Out.adv hs h h0 hk
 
 inductive W2Out (env : Env) (t : Tid) (f : FrameSrc) (r : List Step) (sh : Shared) (c : Cur) : Shared × Cur → Prop
-  | fail : env.failAt t c.idx = some (sentOf sh.wire t c.idx) →
+  | dead : sh.sockShut = true →
       W2Out env t f r sh c (sh, { c with rest := toRelease r, err := some .transport })
-  | fin : env.failAt t c.idx ≠ some (sentOf sh.wire t c.idx) →
+  | fail : sh.sockShut = false → env.failAt t c.idx = some (sentOf sh.wire t c.idx) →
+      W2Out env t f r sh c (sh, { c with rest := toRelease r, err := some .transport })
+  | fin : sh.sockShut = false → env.failAt t c.idx ≠ some (sentOf sh.wire t c.idx) →
       W2Out env t f r sh c ({ sh with wire := sh.wire ++ [⟨t, c.idx, true, descOf f c⟩] }, { c with rest := r, wrote := true })
 
 theorem execW2_out (env : Env) (t : Tid) (f : FrameSrc) (r : List Step) (sh : Shared) (c : Cur) :
     W2Out env t f r sh c (execW2 env t f r sh c) := by
   unfold execW2 failWrite
   split
-  · rename_i h; exact W2Out.fail h
-  · rename_i h; exact W2Out.fin h
+  · rename_i hs; exact W2Out.dead hs
+  · rename_i hs
+    have hs : sh.sockShut = false := by simpa using hs
+    split
+    · rename_i h; exact W2Out.fail hs h
+    · rename_i h; exact W2Out.fin hs h
 
 /-! ### the program after a write step -/
 
@@ -187,10 +200,11 @@ theorem w1_after {env : Env} {t : Tid} {f : FrameSrc} {r : List Step} {sh : Shar
   obtain ⟨hh, r2, rfl⟩ := disc_w1 d
   have dt := disc_tail d
   cases o with
-  | fail _ => exact ⟨disc_suffix (toRelease_suffix _) dt, holds_toRelease _ hh, rfl, rfl, rfl, rfl⟩
-  | skip _ _ => exact ⟨dt, hh, rfl, rfl, rfl, rfl⟩
-  | stay _ _ => exact ⟨d, by simpa [holds] using hh, rfl, rfl, rfl, rfl⟩
-  | adv _ _ _ => exact ⟨dt, hh, rfl, rfl, rfl, rfl⟩
+  | dead _ => exact ⟨disc_suffix (toRelease_suffix _) dt, holds_toRelease _ hh, rfl, rfl, rfl, rfl⟩
+  | fail _ _ => exact ⟨disc_suffix (toRelease_suffix _) dt, holds_toRelease _ hh, rfl, rfl, rfl, rfl⟩
+  | skip _ _ _ => exact ⟨dt, hh, rfl, rfl, rfl, rfl⟩
+  | stay _ _ _ => exact ⟨d, by simpa [holds] using hh, rfl, rfl, rfl, rfl⟩
+  | adv _ _ _ _ => exact ⟨dt, hh, rfl, rfl, rfl, rfl⟩
 
 theorem w2_after {env : Env} {t : Tid} {f : FrameSrc} {r : List Step} {sh : Shared} {c : Cur} {p : Shared × Cur}
     (o : W2Out env t f r sh c p) (d : disc (.write2 f :: r) = true) :
@@ -199,10 +213,13 @@ theorem w2_after {env : Env} {t : Tid} {f : FrameSrc} {r : List Step} {sh : Shar
   obtain ⟨hh, hn⟩ := disc_w2 d
   have dt := disc_tail d
   cases o with
-  | fail _ =>
+  | dead _ =>
     exact ⟨disc_suffix (toRelease_suffix _) dt, holds_toRelease _ hh, rfl, rfl, rfl, rfl,
       noWrite_suffix (toRelease_suffix _) hn⟩
-  | fin _ => exact ⟨dt, hh, rfl, rfl, rfl, rfl, hn⟩
+  | fail _ _ =>
+    exact ⟨disc_suffix (toRelease_suffix _) dt, holds_toRelease _ hh, rfl, rfl, rfl, rfl,
+      noWrite_suffix (toRelease_suffix _) hn⟩
+  | fin _ _ => exact ⟨dt, hh, rfl, rfl, rfl, rfl, hn⟩
 
 /-! ### the lock -/
 
@@ -376,6 +393,7 @@ theorem msgInv_stepN (env : Env) (v : Variant) (cfg : Cfg) (s : State) (t : Tid)
     have o := execW1_out env t f r s.sh c
     generalize execW1 env t f r s.sh c = p at o
     cases o with
+    | dead _ => exact msgInv_same v cfg s t c _ M hc (fun _ => rfl) rfl rfl (fun h => by simp only at h; rw [hnot] at h; cases h)
     | fail _ => exact msgInv_same v cfg s t c _ M hc (fun _ => rfl) rfl rfl (fun h => by simp only at h; rw [hnot] at h; cases h)
     | skip _ _ => exact msgInv_same v cfg s t c _ M hc (fun _ => rfl) rfl rfl (fun h => by simp only at h; rw [hnot] at h; cases h)
     | stay _ _ =>
@@ -391,6 +409,7 @@ theorem msgInv_stepN (env : Env) (v : Variant) (cfg : Cfg) (s : State) (t : Tid)
     have o := execW2_out env t f r s.sh c
     generalize execW2 env t f r s.sh c = p at o
     cases o with
+    | dead _ => exact msgInv_same v cfg s t c _ M hc (fun _ => rfl) rfl rfl (fun h => by simp only at h; rw [hnot] at h; cases h)
     | fail _ => exact msgInv_same v cfg s t c _ M hc (fun _ => rfl) rfl rfl (fun h => by simp only at h; rw [hnot] at h; cases h)
     | fin _ => exact msgInv_fin v cfg s t c _ (descOf f c) M hc hnot rfl rfl rfl (disc_w2 d).2
 
@@ -463,6 +482,7 @@ theorem callInv_stepN (env : Env) (v : Variant) (cfg : Cfg) (s : State) (t : Tid
         ∃ call, (s.th ch.tid).prog[ch.idx]? = some call ∧ descFor cfg call ch.desc := by
       intro ch hch
       cases o with
+      | dead _ => exact Or.inl hch
       | fail _ => exact Or.inl hch
       | skip _ _ => exact Or.inl hch
       | stay _ _ =>
@@ -477,6 +497,12 @@ theorem callInv_stepN (env : Env) (v : Variant) (cfg : Cfg) (s : State) (t : Tid
         · subst h; exact Or.inr hnew
     refine callInv_inside v cfg s t p C hh hne ?_ hwire
     cases o with
+    | dead _ =>
+      refine ⟨call, hcall, all_suffix (toRelease_suffix r) hsrc_t, fun hs => ?_, fun _ => ?_⟩
+      · have hnj := (hsend hs).1
+        simp only [noJump, List.all_cons, Bool.and_eq_true] at hnj
+        exact ⟨all_suffix (toRelease_suffix r) hnj.2, fun h => by cases h⟩
+      · exact ⟨hnot, noWrite_toRelease r (disc_tail d)⟩
     | fail _ =>
       refine ⟨call, hcall, all_suffix (toRelease_suffix r) hsrc_t, fun hs => ?_, fun _ => ?_⟩
       · have hnj := (hsend hs).1
@@ -524,6 +550,7 @@ theorem callInv_stepN (env : Env) (v : Variant) (cfg : Cfg) (s : State) (t : Tid
         ∃ call, (s.th ch.tid).prog[ch.idx]? = some call ∧ descFor cfg call ch.desc := by
       intro ch hch
       cases o with
+      | dead _ => exact Or.inl hch
       | fail _ => exact Or.inl hch
       | fin _ =>
         simp only [List.mem_append, List.mem_singleton] at hch
@@ -532,6 +559,12 @@ theorem callInv_stepN (env : Env) (v : Variant) (cfg : Cfg) (s : State) (t : Tid
         · subst h; exact Or.inr hnew
     refine callInv_inside v cfg s t p C hh hne ?_ hwire
     cases o with
+    | dead _ =>
+      refine ⟨call, hcall, all_suffix (toRelease_suffix r) hsrc_t, fun hs => ?_, fun _ => ?_⟩
+      · have hnj := (hsend hs).1
+        simp only [noJump, List.all_cons, Bool.and_eq_true] at hnj
+        exact ⟨all_suffix (toRelease_suffix r) hnj.2, fun h => by cases h⟩
+      · exact ⟨hnot, noWrite_suffix (toRelease_suffix r) hnw⟩
     | fail _ =>
       refine ⟨call, hcall, all_suffix (toRelease_suffix r) hsrc_t, fun hs => ?_, fun _ => ?_⟩
       · have hnj := (hsend hs).1
